@@ -95,10 +95,11 @@ def nitfasmStep (toks : List String) : Option String :=
         | "spec", [] => pure (showArr t.leaves (specArr hs o))
         | "read", [sub] =>
           let ts ← parseSub sub
-          if !t.wf || !allSlicesNormal t.fshape ts then pure "refused" else pure (showArr t.leaves (t.readSrc ts))
+          if !t.wf || !allSlicesNormal t.fshape ts || !t.accepts ts then pure "refused" else pure (showArr t.leaves (t.readSrc ts))
         | "rawread", [sub] =>
           let ts ← parseSub sub
-          if !t.wf || !allSlicesNormal (below t).fshape ts then pure "refused" else pure (showArr t.leaves ((below t).readSrc ts))
+          if !t.wf || !allSlicesNormal (below t).fshape ts || !(below t).accepts ts then pure "refused"
+          else pure (showArr t.leaves ((below t).readSrc ts))
         | _, _ => none
     | _ => none
   | _ => none
